@@ -523,6 +523,9 @@ func TestC11(t *testing.T) {
 		if i%10 == 9 {
 			c11transient(rep, seed, i/10)
 		}
+		if i%10 == 4 {
+			c11stale(rep, seed, i/10)
+		}
 		if i%20 == 19 {
 			c11clients(rep, seed, i/20)
 		}
@@ -659,6 +662,104 @@ func c11transient(rep *vh.Report, seed uint64, idx int) {
 	rep.Eval(1)
 	rep.Count("scenarios_transient_write_error", 1)
 	rep.Distinct("transient", idx, k, victim)
+}
+
+// c11stale: a one-channel-at-a-time endpoint whose channel closed and re-opened. The old channel object is a closed
+// channel: a write naming it is ignored, an exclusion naming it excludes nobody - the endpoint's new channel is an open
+// channel like any other.
+func c11stale(rep *vh.Report, seed uint64, idx int) {
+	if aborted() {
+		return
+	}
+	r := vh.Sub(seed, fmt.Sprintf("c11-stale-%d", idx))
+	hookReset(r.U64(), true, false)
+	k := 2 + r.Intn(3)
+	n := c13start(rep, k, false, false)
+	if n == nil {
+		return
+	}
+	n.cons.prop = "C11"
+	const fam = 0xCA
+	a := r.Intn(k)
+	oldA := n.chans[a]
+	// the link's session ends; the endpoint provides a new channel on the same transport
+	n.trs[a].FeedError(errSession)
+	var newA *gomavlib.Channel
+	waitFor(func() bool {
+		for _, ci := range n.cons.openChannels() {
+			if ci.Tr == n.trs[a] && ci.Ch != oldA {
+				newA = ci.Ch
+				return true
+			}
+		}
+		return false
+	}, n.cons.nEvents, time.Second)
+	if newA == nil {
+		rep.Inconclusive("C11 stale: the custom endpoint did not re-open its channel")
+		safeClose(rep, n.node)
+		return
+	}
+	base := make([]int, k)
+	for i, tr := range n.trs {
+		base[i] = tr.NWrites()
+	}
+	var wantAll, wantNone []uint64
+	for i := 0; i < 12; i++ {
+		uid := uint64(fam)<<56 | uint64(i+1)
+		m := &MessageVfUid{Uid: uid, Kind: 1}
+		switch i % 4 {
+		case 0:
+			_ = n.node.WriteMessageExcept(oldA, m)
+			wantAll = append(wantAll, uid)
+		case 1:
+			_ = n.node.WriteFrameExcept(oldA, &frame.V2Frame{SystemID: 3, ComponentID: 4, SequenceNumber: byte(i), Message: m})
+			wantAll = append(wantAll, uid)
+		case 2:
+			_ = n.node.WriteMessageTo(oldA, m)
+			wantNone = append(wantNone, uid)
+		case 3:
+			_ = n.node.WriteFrameTo(oldA, &frame.V2Frame{SystemID: 3, ComponentID: 4, SequenceNumber: byte(i), Message: m})
+			wantNone = append(wantNone, uid)
+		}
+		time.Sleep(300 * time.Microsecond)
+	}
+	// a closing marker to everybody: once it is out on every link, all of the above has been processed
+	_ = n.node.WriteMessageAll(&MessageVfUid{Uid: uint64(fam)<<56 | 999})
+	for _, tr := range n.trs {
+		tr := tr
+		waitFor(func() bool {
+			acc, _ := wireUIDs(tr, fam)
+			return len(acc) > 0 && acc[len(acc)-1]&0xFFFF == 999
+		}, func() int64 { return int64(tr.NWrites()) }, 800*time.Millisecond)
+	}
+	for i, tr := range n.trs {
+		acc, _ := wireUIDs(tr, fam)
+		got := []uint64{}
+		for _, u := range acc {
+			if u&0xFFFF != 999 {
+				got = append(got, u)
+			}
+		}
+		rep.Eval(1)
+		wit := map[string]interface{}{"channel": i, "reopened_link": a, "got": got, "want": wantAll, "addressed_to_the_closed_channel": wantNone}
+		if fmt.Sprint(got) != fmt.Sprint(wantAll) {
+			what := "what=lost ep=custom"
+			for _, u := range got {
+				for _, x := range wantNone {
+					if u == x {
+						what = "what=isolation ep=custom"
+					}
+				}
+			}
+			rep.Violation(what, fmt.Sprintf("with the closed channel object of a re-opened link named in Except / To calls, open channel %d received %d items (the %d Except items expected, none of the To items)", i, len(got), len(wantAll)), wit)
+		}
+	}
+	if !safeClose(rep, n.node) {
+		return
+	}
+	<-n.cons.done
+	rep.Count("scenarios_stale_handle", 1)
+	rep.Distinct("stale", idx, k, a)
 }
 
 // c11tcp: the same fan-out properties over real TCP connections (server endpoint, k loopback peers).
